@@ -31,4 +31,7 @@ def warm():
     first generated case is not dominated by JIT."""
     z = np.array([0.1, 1.0, 2.0])
     prof = tuple(np.ones(3) for _ in range(5))
-    solver()(np.ones((2, 2)), z, prof, (10.0, 10.0), 1, modes=(2, 2), halo=0.0, precision="double")
+    try:
+        solver()(np.ones((2, 2)), z, prof, (10.0, 10.0), 1, modes=(2, 2), halo=0.0, precision="double")
+    except Exception:
+        pass  # a tree on which even this solve raises is reported by the generated cases, as a violation
